@@ -13,6 +13,17 @@ RIGHT = ['', ' ', ' text', '<b>', '</p>', 'x']
 CSS_ABBRS = ['p10', 'm10-20', 'bd1-s#f.5', 'c#f', 'fl', 'pos:a', 'm-10--20', 'w100p', 'lh1.5', 'bg+', 'p10!', 'd:n+m10', 'trf:r', 'op.5', '@m', 'c#e7bc0b', 'z10', 'bdrs5']
 
 
+def rand_tag(rnd):
+    """a complete tag as left context: quoted values may contain the other kind of quote, `=`, `/` and blanks; boolean attributes and a
+    self-closing slash may follow them"""
+    t = '<' + rnd.choice(['a', 'div', 'br', 'img', 'x-y', 'li'])
+    for _ in range(rnd.randint(0, 3)):
+        t += rnd.choice([' ', '  '])
+        t += rnd.choice(['hidden', 'b=c', 'title="it\'s"', "t='say \"hi\"'", 'class="x y"', 'd="a=b"', "e='/'", 'data-x="1/2"', 'q="\'"', "r='\"\"'", 'alt', 'n=1'])
+    t += rnd.choice(['>', '>', '/>', ' />', '> ', '>\t'])
+    return t
+
+
 def cases(tier, seed, prop):
     rnd = random.Random(seed)
     L = 2 if tier == 'quick' else 3
@@ -27,7 +38,10 @@ def cases(tier, seed, prop):
         else:
             ab = gens.rand_abbr(rnd, [rnd.randint(1, 6)], 2)
             if '\n' in ab or not ab: continue
-        left = rnd.choice(LEFT); right = rnd.choice(RIGHT)
+        left = rnd.choice(LEFT) if rnd.random() < .6 else rand_tag(rnd); right = rnd.choice(RIGHT)
+        if not css and rnd.random() < .15:
+            # attribute values / text with a parenthesised group that contains non-abbreviation characters
+            ab += rnd.choice(['[title="x (y z)"]', '[onclick="go(1, 2)"]', "[d='f(a b)']", '{call (a, b) now}', '[t="(a b) (c, d)"]', '{(x y)}']) + rnd.choice(['', '*2', '>b'])
         if len(left + ab + right) > 90: continue
         out.append({'s': left + ab + right, 'g': 'roundtrip', 'rt': [len(left), len(left) + len(ab), css]})
         k += 1
